@@ -141,7 +141,7 @@ def main():
                          + body + "print(list(m.tasks), repr(rd))\nassert rd in m.tasks and rd._expr is not None\n", "BaseRef.__getitem__")
     rac.section("rebuilt", "every node class: the same structure obtained by another construction route (copy.copy, "
                 "the class applied to __reduce__'s arguments, CallRef kwargs as dict vs tuple of pairs, evaluation of the "
-                "printed form) is equal and hashes equally", "18 expression shapes x 4 routes")
+                "printed form) is equal and hashes equally", "24 expression shapes (incl. item-mode and attribute-mode container references) x 6 routes (copy, deepcopy, pickle, __reduce__, rebuilt, kwargs spellings)")
     import copy
     import math
     import xdeps.refs as R
@@ -154,11 +154,19 @@ def main():
     more = ["r['a'] + r['b']", "-r['a']", "abs(r['a'])", "round(r['a'], 2)", "round(r['a'])", "divmod(r['a'], r['b'])",
             "math.floor(r['a'])", "fr.f(r['a'], 2)", "fr.f(r['a'], k=r['b'])", "fr.f(k=1, j=r['a'])", "fr.f()",
             "R.CallRef(fr.f, (r['a'],), {'k': 2, 'j': r['b']})", "R.CallRef(fr.f, (r['a'],), (('k', 2), ('j', r['b'])))",
-            "R.LiteralExpr(3) + r['a']", "r['n']['x'] * r['l'][0]", "r['n'].x ** 2", "r[r['k']]", "(r['a'] < 2) | (r['b'] > 1)"]
+            "R.LiteralExpr(3) + r['a']", "r['n']['x'] * r['l'][0]", "r['n'].x ** 2", "r[r['k']]", "(r['a'] < 2) | (r['b'] > 1)",
+            # the container references themselves (item-mode and attribute-mode) and paths below them
+            "r", "r['n']", "ra", "ra.c", "ra.c.d", "ra.c + r['a']"]
+    import pickle
+
+    class Env:
+        pass
+    ra1, ra2 = xdeps.Manager().refattr(Env(), "env"), xdeps.Manager().refattr(Env(), "env")
     for src_ in more:
-        e = eval(src_, dict(r=r1, fr=fr, R=R, math=math))
+        e = eval(src_, dict(r=r1, ra=ra1, fr=fr, R=R, math=math))
         routes = {"copy.copy": lambda q: copy.copy(q), "reduce": lambda q: q.__reduce__()[0](*q.__reduce__()[1]),
-                  "rebuilt": lambda q: eval(src_, dict(r=r2, fr=fr, R=R, math=math))}
+                  "rebuilt": lambda q: eval(src_, dict(r=r2, ra=ra2, fr=fr, R=R, math=math)),
+                  "copy.deepcopy": lambda q: copy.deepcopy(q), "pickle": lambda q: pickle.loads(pickle.dumps(q))}
         if isinstance(e, R.CallRef):
             routes["kwargs-as-dict"] = lambda q: R.CallRef(q._func, q._args, dict(q._kwargs))
             routes["kwargs-as-pairs"] = lambda q: R.CallRef(q._func, q._args, tuple(q._kwargs))
@@ -168,17 +176,23 @@ def main():
             except Exception as ex:      # noqa
                 continue
             rac.case(("rebuilt", src_, rn), nontrivial=True, sample=(src_, rn))
-            if not (e == e2) or hash(e) != hash(e2) or {e: 1}.get(e2) != 1:
+            # (a container reference is of the same kind afterwards: the next step below it builds the same path)
+            step_ok = type(e2) is type(e) and (not isinstance(e, R.MutableRef) or (e2.zz == e.zz and hash(e2.zz) == hash(e.zz) and type(e2.zz) is type(e.zz)))
+            if not (e == e2) or hash(e) != hash(e2) or {e: 1}.get(e2) != 1 or not step_ok:
                 route_src = {"copy.copy": "e2 = copy.copy(e)", "reduce": "e2 = e.__reduce__()[0](*e.__reduce__()[1])",
-                             "rebuilt": "r = xdeps.Manager().ref({}, 'd'); e2 = " + src_,
+                             "copy.deepcopy": "e2 = copy.deepcopy(e)", "pickle": "import pickle; e2 = pickle.loads(pickle.dumps(e))",
+                             "rebuilt": "r = xdeps.Manager().ref({}, 'd'); ra = xdeps.Manager().refattr(Env(), 'env'); e2 = " + src_,
                              "kwargs-as-dict": "e2 = R.CallRef(e._func, e._args, dict(e._kwargs))",
                              "kwargs-as-pairs": "e2 = R.CallRef(e._func, e._args, tuple(e._kwargs))"}[rn]
                 scr = "\n".join([PRELUDE, "import xdeps, copy, math", "import xdeps.refs as R", "class F:",
                                  "    @staticmethod", "    def f(*a, **k): return 0",
-                                 "fr = xdeps.Manager().ref(F, 'f'); r = xdeps.Manager().ref({}, 'd')", "e = " + src_, route_src,
-                                 "print(e, e2, hash(e), hash(e2))",
-                                 "assert e == e2 and hash(e) == hash(e2) and {e: 1}.get(e2) == 1", ""])
-                rac.fail(f"rebuilt {src_} via {rn}", f"{src_} rebuilt via {rn}: == {e == e2}, hash equal {hash(e) == hash(e2)}",
+                                 "class Env: pass",
+                                 "fr = xdeps.Manager().ref(F, 'f'); r = xdeps.Manager().ref({}, 'd'); ra = xdeps.Manager().refattr(Env(), 'env')", "e = " + src_, route_src,
+                                 "print(e, e2, hash(e), hash(e2), type(e), type(e2))",
+                                 "assert e == e2 and hash(e) == hash(e2) and {e: 1}.get(e2) == 1 and type(e) is type(e2)",
+                                 "if isinstance(e, R.MutableRef): assert e2.zz == e.zz and hash(e2.zz) == hash(e.zz) and type(e2.zz) is type(e.zz), (e.zz, e2.zz, type(e.zz), type(e2.zz))", ""])
+                rac.fail(f"rebuilt {src_} via {rn}", f"{src_} rebuilt via {rn}: == {e == e2}, hash equal {hash(e) == hash(e2)}, same kind of reference {type(e2) is type(e)}, "
+                         f"same path one step below {step_ok}",
                          scr, type(e).__name__ + ".__cinit__")
     rac.section("collisions", "hash spread over a family of similar keys: a hash that ignores the key would pass the equality "
                 "contract, so the number of distinct hashes is bounded from below", "N similar keys, >= 99% distinct hashes", exhaustive=False)
